@@ -156,38 +156,24 @@ Print Assumptions C01_alive_inside_close_batch_partial.
 
 (* ---- 3. the value returned by uv_run ----------------------------------- *)
 
-(* The trace of uv_run ends with [VRun r].  [r] is uv__loop_alive of the
-   state uv_run returns in, for every fuel, mode and state, except in one
-   case ([stale_case]): UV_RUN_DEFAULT entered with work outstanding and the
-   stop flag clear, and the timer pass that precedes the first iteration
-   sets the stop flag - then no iteration runs and [r] is the liveness
-   sampled at entry, i.e. true. *)
+(* The trace of uv_run ends with [VRun r], and [r] is uv__loop_alive of the
+   state uv_run returns in, for every fuel, mode and state.  (Before the
+   "fix:" commit for known finding 2 this failed in one case: UV_RUN_DEFAULT
+   entered with work outstanding, and the timer pass that precedes the first
+   iteration sets the stop flag - the result was the liveness sampled at
+   entry.) *)
 Theorem C01_run_result :
   forall fuel s beh mode,
-  (Nat.eqb mode 0 && loop_alive s && negb (stop_flag s) &&
-   stop_flag (fst (l_run_timers (update_time s) beh))) = false ->
   exists e, snd (uv_run fuel s beh mode) =
             e ++ [VRun (loop_alive (fst (uv_run fuel s beh mode)))].
 Proof. exact run_result. Qed.
 Print Assumptions C01_run_result.
 
-Theorem C01_run_result_partial_stale_case :
-  forall fuel s beh mode,
-  (Nat.eqb mode 0 && loop_alive s && negb (stop_flag s) &&
-   stop_flag (fst (l_run_timers (update_time s) beh))) = true ->
-  mode = O /\ loop_alive s = true /\ stop_flag s = false /\
-  fst (uv_run fuel s beh mode) = set_stop (fst (l_run_timers (update_time s) beh)) false /\
-  exists e, snd (uv_run fuel s beh mode) = e ++ [VRun true].
-Proof. exact run_result_stale. Qed.
-Print Assumptions C01_run_result_partial_stale_case.
-
-(* For a uv_run made at top level after any script prefix, outside the stale
-   case: the result is true exactly when the state uv_run returns in has
+(* For a uv_run made at top level after any script prefix: the result is true exactly when the state uv_run returns in has
    outstanding work (the three-clause predicate). *)
 Theorem C01_run_result_outstanding :
   forall (t0 : Z) (m : bool) (pre : list lop) (beh : nat -> list lop) (mode : nat),
   let s := fst (lrun (linit t0 m) pre beh) in
-  stale_case s beh mode = false ->
   exists e r, snd (uv_run run_fuel s beh mode) = e ++ [VRun r] /\
     let s' := fst (uv_run run_fuel s beh mode) in
     (r = true <->
@@ -208,19 +194,20 @@ Theorem C01_run_toplevel :
 Proof. exact run_toplevel. Qed.
 Print Assumptions C01_run_toplevel.
 
-(* Known finding 2 (uv_run_default_stale_result_after_stop_in_initial_timer_pass):
-   one due non-repeating timer whose callback calls uv_stop(); uv_run(DEFAULT)
-   returns true with nothing outstanding afterwards. *)
-Theorem C01_run_default_stale_result_refuted :
+(* The failing input of former known finding 2
+   (uv_run_default_stale_result_after_stop_in_initial_timer_pass) on the
+   repaired code: one due non-repeating timer whose callback calls uv_stop();
+   uv_run(DEFAULT) returns 0 with nothing outstanding afterwards. *)
+Theorem C01_run_default_stop_in_initial_timer_pass :
   let os := [LInit KTimer true; LTStart 0 (Some 1%nat) 0 0; LRun 0] in
   let beh := fun _ : nat => [LStopLoop] in
-  exists e, snd (lrun (linit 0 false) os beh) = e ++ [VRun true] /\
+  exists e, snd (lrun (linit 0 false) os beh) = e ++ [VRun false] /\
             loop_alive (fst (lrun (linit 0 false) os beh)) = false /\
             nact (fst (lrun (linit 0 false) os beh)) = 0 /\
             nreq (fst (lrun (linit 0 false) os beh)) = 0 /\
             closing (fst (lrun (linit 0 false) os beh)) = [].
-Proof. exact run_default_stale_result_refuted. Qed.
-Print Assumptions C01_run_default_stale_result_refuted.
+Proof. exact run_default_stop_in_initial_timer_pass. Qed.
+Print Assumptions C01_run_default_stop_in_initial_timer_pass.
 
 (* uv_run(UV_RUN_DEFAULT) returns only when nothing is outstanding or
    uv_stop() was called.  [run_loopX] is [run_loop] with one more result,
